@@ -159,15 +159,30 @@ func (its *WiredDatatype) checkOptionAndError(ppp *model.PushPullPack) errors.Or
 }
 
 func (its *WiredDatatype) excludeDuplicatedOperations(ppp *model.PushPullPack) {
+	// The operations of this client were executed when they were issued. They are pulled nevertheless
+	// when the response to the request that pushed them has been lost, and they can sit anywhere among the others.
+	var others []*model.Operation
+	for _, op := range ppp.Operations {
+		if op.ID.GetCUID() != its.opID.CUID {
+			others = append(others, op)
+		}
+	}
+	if len(others) != len(ppp.Operations) {
+		its.L().Infof("skip %d operations of this client", len(ppp.Operations)-len(others))
+	}
+	// `pulled` is the number of operations of the other clients that have not been applied yet;
+	// they are the last ones: for example, if o_1 o_2 o_3 o_4 o_5 are received, and `pulled` == 3,
+	// o_1 and o_2 were already received, and should be skipped.
 	pulled := its.calculatePullingOperations(ppp.CheckPoint)
-	if len(ppp.Operations) > pulled {
-		// for example, if len(ppp.Operations) == 5: o_1 o_2 o_3 o_4 o_5 are received, and
-		// if `pulled` == 3, o_1 and o_2 were already received,
-		// o_1 and o_2 should be skipped
-		skip := len(ppp.Operations) - pulled
-		ppp.Operations = ppp.Operations[skip:]
+	if pulled < 0 { // a stale response: everything has already been received
+		pulled = 0
+	}
+	if len(others) > pulled {
+		skip := len(others) - pulled
+		others = others[skip:]
 		its.L().Infof("skip %d operations", skip)
 	}
+	ppp.Operations = others
 }
 
 func (its *WiredDatatype) syncCheckPoint(newCheckPoint *model.CheckPoint) {
